@@ -994,6 +994,7 @@ type blockDigest struct {
 	nvu      int
 	preAnte  string // digest of the GasUsed values of txs rejected before the ante handler
 	nPreAnte int
+	preGas   []int64
 	txs      []string // per delivered tx: kind + projected result (localisation only)
 	kinds    []string // per delivered tx: "<op kind>/ok" or "<op kind>/fail"
 	stores   map[string]string
@@ -1013,6 +1014,7 @@ func (r *replica) runBlock(b c01Block, wantStores bool) blockDigest {
 	txh := sha256.New()
 	pah := sha256.New()
 	npre := 0
+	var preGas []int64
 	var codes []uint32
 	var kinds []string
 	var txs []string
@@ -1023,6 +1025,7 @@ func (r *replica) runBlock(b c01Block, wantStores bool) blockDigest {
 				// context meter has accumulated; compared on its own channel (see README, finding "pre-ante gas")
 				fmt.Fprintf(txh, "%d|%x|%d|pre-ante;", res.Code, res.Data, res.GasWanted)
 				fmt.Fprintf(pah, "%d;", res.GasUsed)
+				preGas = append(preGas, res.GasUsed)
 				npre++
 			} else {
 				fmt.Fprintf(txh, "%d|%x|%d|%d;", res.Code, res.Data, res.GasWanted, res.GasUsed)
@@ -1055,7 +1058,7 @@ func (r *replica) runBlock(b c01Block, wantStores bool) blockDigest {
 		h.Write([]byte(p))
 	}
 	d := blockDigest{all: hex.EncodeToString(h.Sum(nil)), parts: parts, codes: codes, kinds: kinds, nvu: len(eb.ValidatorUpdates), txs: txs,
-		preAnte: hex.EncodeToString(pah.Sum(nil)), nPreAnte: npre}
+		preAnte: hex.EncodeToString(pah.Sum(nil)), nPreAnte: npre, preGas: preGas}
 	if wantStores {
 		d.stores = r.storeDigests()
 	}
@@ -1087,17 +1090,18 @@ func (r *replica) storeDigests() map[string]string {
 const nReplicas = 3
 
 type diffObs struct {
-	Replicas   [][]int        `json:"replicas"` // per replica: id of the block digest, per block
-	Differs    []string       `json:"differs"`  // which observable / module stores differ at the first differing block
-	Kinds      map[string]int `json:"kinds"`    // replica 0: delivered txs per op kind and outcome (input distribution only)
-	NTx        int            `json:"ntx"`
-	NValUpd    int            `json:"nvalupd"`     // blocks with a non-empty validator update (replica 0)
-	PreAnteGas [][]int        `json:"preante_gas"` // per in-process replica: ids of the GasUsed of txs rejected before the ante handler
-	NPreAnte   int            `json:"npreante"`
-	Queries    [2]int         `json:"queries"`  // replica 1: read-only requests answered between blocks (sent, succeeded)
-	Restarts   int            `json:"restarts"` // replica 2: restarts from its database
-	CheckTxs   int            `json:"checktxs"` // replica 2: CheckTx / ReCheckTx calls
-	Child      bool           `json:"child"`    // the last row of Replicas comes from a separate process
+	Replicas        [][]int        `json:"replicas"` // per replica: id of the block digest, per block
+	Differs         []string       `json:"differs"`  // which observable / module stores differ at the first differing block
+	Kinds           map[string]int `json:"kinds"`    // replica 0: delivered txs per op kind and outcome (input distribution only)
+	NTx             int            `json:"ntx"`
+	NValUpd         int            `json:"nvalupd"`     // blocks with a non-empty validator update (replica 0)
+	PreAnteGas      [][]int        `json:"preante_gas"` // per in-process replica: ids of the GasUsed of txs rejected before the ante handler
+	NPreAnte        int            `json:"npreante"`
+	PreAnteMaxDelta int64          `json:"preante_max_delta"` // largest |GasUsed difference| of such a tx between replica 0 and another replica
+	Queries         [2]int         `json:"queries"`           // replica 1: read-only requests answered between blocks (sent, succeeded)
+	Restarts        int            `json:"restarts"`          // replica 2: restarts from its database
+	CheckTxs        int            `json:"checktxs"`          // replica 2: CheckTx / ReCheckTx calls
+	Child           bool           `json:"child"`             // the last row of Replicas comes from a separate process
 }
 
 // childDigests runs the history in a SEPARATE PROCESS (own heap layout, own map hash seeds, own
@@ -1177,8 +1181,32 @@ func runDiff(w *world, in c01Input, withChild bool) diffObs {
 		}
 		obs.NTx += len(ds[0].codes)
 		obs.NPreAnte += ds[0].nPreAnte
+		for i := 1; i < nReplicas; i++ {
+			for t := range ds[0].preGas {
+				if t < len(ds[i].preGas) {
+					d := ds[i].preGas[t] - ds[0].preGas[t]
+					if d < 0 {
+						d = -d
+					}
+					if d > obs.PreAnteMaxDelta {
+						obs.PreAnteMaxDelta = d
+					}
+				}
+			}
+		}
 		if !located {
 			for i := 1; i < nReplicas; i++ {
+				if ds[i].all == ds[0].all && ds[i].preAnte != ds[0].preAnte {
+					located = true
+					obs.Differs = append(obs.Differs, "preante-gas")
+					for t := range ds[0].txs {
+						if t < len(ds[i].txs) && ds[i].txs[t] != ds[0].txs[t] {
+							obs.Differs = append(obs.Differs, fmt.Sprintf("tx#%d replica0{%s} replica%d{%s}", t, ds[0].txs[t], i, ds[i].txs[t]))
+							break
+						}
+					}
+					break
+				}
 				if ds[i].all != ds[0].all {
 					located = true
 					names := []string{"apphash", "txresults", "valupdates"}
@@ -1768,4 +1796,44 @@ func TestC01(t *testing.T) {
 		runOne(w, em, c01Input{T: "tw", Ws: ws})
 	}
 	_ = bytes.Compare
+}
+
+// TestC01Bisect (diagnostic, only with C01_BISECT=1): gas consumed by every module's BeginBlock on a restarted vs a
+// never-restarted application at the same height.
+func TestC01Bisect(t *testing.T) {
+	if os.Getenv("C01_BISECT") == "" {
+		t.Skip("diagnostic")
+	}
+	w := newWorld()
+	a, b := w.newReplica(), w.newReplica()
+	for i := 0; i < 2; i++ {
+		a.runBlock(c01Block{Dt: 5}, false)
+		b.runBlock(c01Block{Dt: 5}, false)
+	}
+	b.restartApp()
+	for _, r := range []*replica{a, b} {
+		hdr := r.c.Header
+		hdr.Height++
+		hdr.Time = hdr.Time.Add(5 * time.Second)
+		for _, name := range r.c.App.ModuleManager.OrderBeginBlockers {
+			m, ok := r.c.App.ModuleManager.Modules[name].(interface {
+				BeginBlock(sdk.Context, abci.RequestBeginBlock)
+			})
+			if !ok {
+				continue
+			}
+			ctx := r.c.App.NewUncachedContext(false, hdr)
+			cctx, _ := ctx.CacheContext()
+			cctx = cctx.WithGasMeter(sdk.NewInfiniteGasMeter())
+			func() {
+				defer func() {
+					if rec := recover(); rec != nil {
+						fmt.Printf("BISECT restarts=%d %s PANIC %v\n", r.nRestarts, name, rec)
+					}
+				}()
+				m.BeginBlock(cctx, abci.RequestBeginBlock{Header: hdr})
+			}()
+			fmt.Printf("BISECT restarts=%d %-14s gas=%d\n", r.nRestarts, name, cctx.GasMeter().GasConsumed())
+		}
+	}
 }
